@@ -316,7 +316,9 @@ class LaplaceBoundedDomain(LaplaceTruncated):
         eps = self.epsilon
         delta = self.delta
         diam = self.upper - self.lower
-        delta_q = self.sensitivity
+        # Inputs are clamped to the domain, so they never differ by more than its diameter (a larger value makes
+        # _delta_c negative and the scale NaN, and randomise would then never return)
+        delta_q = min(self.sensitivity, diam)
 
         def _delta_c(shape):
             if shape == 0:
